@@ -248,6 +248,11 @@ fn gen_cancel_case(rng: &mut Rng) -> ConcCase {
         cfg.max_nodes = 7;
         cfg.untracked = false;
         cfg.kinds.retain(|k| k.0 != Kind::Lru);
+        // functions declared with cycle handling that never actually form a cycle: local
+        // cancellation is disabled only while *they* execute
+        cfg.kinds.push((Kind::Fix, 2));
+        cfg.kinds.push((Kind::FixJ, 1));
+        cfg.kinds.push((Kind::Fb, 1));
         cfg.makers = false;
         cfg.intern = vec![];
         gen_prog(rng, &cfg)
@@ -318,19 +323,21 @@ pub struct IterVerdict {
 }
 
 fn is_cyclic_prog(prog: &Prog) -> bool {
+    // acyclic generators only call lower-numbered nodes; cyclic ones call any node
+    fn calls_up(e: &Expr, me: usize) -> bool {
+        match e {
+            Expr::Call(n) | Expr::CallMulti(n, _) => *n >= me,
+            Expr::PeekZ(..) => true,
+            Expr::If(a, b, c) => calls_up(a, me) || calls_up(b, me) || calls_up(c, me),
+            Expr::Bin(_, a, b) => calls_up(a, me) || calls_up(b, me),
+            Expr::Intern(_, a) | Expr::OnSym(a) | Expr::Acc(a) => calls_up(a, me),
+            _ => false,
+        }
+    }
     prog.nodes
         .iter()
-        .any(|n| matches!(n.kind, Kind::Fix | Kind::FixJ | Kind::Fb))
-        || refint::call_edges(
-            prog,
-            &refint::Inputs {
-                cells: vec![[0, 0]; prog.ncells],
-                unt: vec![0; prog.nunt.max(1)],
-            },
-        )
-        .iter()
         .enumerate()
-        .any(|(i, e)| e.iter().any(|&j| j >= i))
+        .any(|(i, n)| n.kind != Kind::Maker && calls_up(&n.body, i))
 }
 
 fn expect_any(prop: &str, prog: &Prog, inp: &refint::Inputs, req: &Req, cyclic: bool) -> Option<Expect> {
@@ -769,6 +776,67 @@ fn check_cancel(case: &ConcCase, res: &IterResult) -> (Vec<String>, Counts) {
             _ => {
                 if let Some(e) = cur.get_mut(th) {
                     e.2 = *clk;
+                }
+            }
+        }
+    }
+    // mid-call rule: a cancellation check of the target, made outside the execution of any function
+    // with cycle handling, at a clock after cancel() has returned, must not be survived: the call
+    // it belongs to has to end with Cancelled::Local (unless that cancel was already dead)
+    {
+        let is_fixk = |f: FnK| matches!(f, FnK::Fix | FnK::FixJ | FnK::Fb);
+        let mut stacks: HashMap<u8, Vec<FnK>> = HashMap::new();
+        let mut in_call: HashMap<u8, (u32, u64)> = HashMap::new();
+        // (handle, call clock) -> clock of a check that should have unwound
+        let mut must_unwind: HashMap<(u32, u64), (u64, u64)> = HashMap::new();
+        for (clk, th, r) in &res.log {
+            match r {
+                Rec::Call(h, _) if *h != 0 => {
+                    in_call.insert(*th, (*h, *clk));
+                    stacks.remove(th);
+                }
+                Rec::Enter(a) => stacks.entry(*th).or_default().push(a.f),
+                Rec::Exit(..) | Rec::Unwound(_) => {
+                    stacks.entry(*th).or_default().pop();
+                }
+                Rec::Ev(Ev::WillCheckCancellation) => {
+                    let Some((h, c0)) = in_call.get(th).copied() else { continue };
+                    let inside_fix = stacks.get(th).map(|s| s.iter().any(|f| is_fixk(*f))).unwrap_or(false);
+                    if inside_fix {
+                        continue;
+                    }
+                    if let Some(can) = cancels.get(&h) {
+                        // a cancel that completed before this check and was not dead before this call
+                        let prior_calls: Vec<&CallRec> = calls
+                            .get(&h)
+                            .map(|v| v.iter().filter(|n| n.ret < c0).collect())
+                            .unwrap_or_default();
+                        if let Some((b, d)) = can
+                            .iter()
+                            .find(|(_, d)| *d < *clk && !prior_calls.iter().any(|n| *d < n.last_ev))
+                        {
+                            // cancels that completed before an earlier call began are handled by the
+                            // between-calls rule; here: completed after the previous call's return
+                            let prev_ret = prior_calls.iter().map(|n| n.ret).max().unwrap_or(0);
+                            if *b > prev_ret {
+                                must_unwind.entry((h, c0)).or_insert((*clk, *d));
+                            }
+                        }
+                    }
+                }
+                Rec::Ret(h, _) if *h != 0 => {
+                    in_call.remove(th);
+                }
+                _ => {}
+            }
+        }
+        for ((h, c0), (chk, d)) in &must_unwind {
+            if let Some(cr) = calls.get(h).and_then(|v| v.iter().find(|n| n.call == *c0)) {
+                c.inc("midcall_checks_after_cancel");
+                if cr.value {
+                    v.push(format!(
+                        "T{h}: cancel() had returned at clock {d}; the target checked for cancellation at clock {chk} outside any function with cycle handling and still completed its call with a value instead of unwinding with Cancelled::Local"
+                    ));
                 }
             }
         }
